@@ -148,6 +148,50 @@ def refusal_sweep(ctx, rng):
                                 refusal=[p[:40].hex() for _, p in rep], application_saw=repr(log), reply=[p[:12].hex() for _, p in rep2]), n
             finally:
                 env.close()
+    # a COM_CHANGE_USER that fails AFTER the requested identity was applied to the session but before any proof was looked at
+    # (a collation whose character set has no codec: binary, dec8, ucs2 ...), with the right / a wrong / no proof, from clients
+    # with and without CLIENT_PLUGIN_AUTH: answered with ERR, and then nothing is served - least of all under the other name
+    for caps in (cl.BASE_CAPS, cl.BASE_CAPS & ~cl.CLIENT_PLUGIN_AUTH & ~cl.CLIENT_CONNECT_ATTRS):
+        for coll in (63, 3, 35, 130):
+            for target, secret in ((b"alice", b"pw"), (b"alice", b"wrong"), (b"root", b"wrong"), (b"nologin", b"")):
+                env = impl.Env(own_sleep=False)
+                try:
+                    log = []
+                    S.LOG = log
+                    made = []
+
+                    def fac():
+                        made.append(S())
+                        return made[-1]
+                    srv = impl.make_server(env, fac, identity_provider=IP())
+                    c = impl.Conn(env, srv)
+                    env.settle()
+                    nonce = cl.parse_handshake_v10(cl.split_raw(c.take())[0][1])["nonce"]
+                    c.feed(cl.frame(cl.handshake_response(user=b"carol", auth=cl.native_scramble(b"pw", nonce), caps=caps, charset=45), 1))
+                    if cl.split_raw(c.take())[-1][1][:1] != b"\x00":
+                        continue
+                    resp = cl.native_scramble(secret, nonce) if secret else b""
+                    cu = bytes([cl.COM_CHANGE_USER]) + target + b"\0" + bytes([len(resp)]) + resp + b"secretdb\0" + struct.pack("<H", coll)
+                    if caps & cl.CLIENT_PLUGIN_AUTH:
+                        cu += b"mysql_native_password\0"
+                    c.feed(cl.frame(cu, 0))
+                    rep = cl.split_raw(c.take())
+                    n += 1
+                    if rep and rep[-1][1][:1] == b"\x00":
+                        continue          # (the library found a codec for this collation and the proof was right: a legitimate change)
+                    del log[:]
+                    served = []
+                    if c.blocked_on() != "done":
+                        c.feed(cl.frame(bytes([cl.COM_QUERY]) + b"SELECT answer FROM t", 0))
+                        served = [p for _, p in cl.split_raw(c.take()) if p[:1] != b"\xff"]
+                    ext = made[0].variables.get("external_user") if made else None
+                    if log or served or (c.blocked_on() != "done" and ext != "carol"):
+                        return dict(problem="a COM_CHANGE_USER that failed before any proof was verified left the connection in service",
+                                    collation=coll, client_plugin_auth=bool(caps & cl.CLIENT_PLUGIN_AUTH), requested_user=target.decode(),
+                                    reply=[p[:40].hex() for _, p in rep][:2], application_saw=repr(log), external_user_now=ext,
+                                    database_now=made[0].database if made else None), n
+                finally:
+                    env.close()
     # the handshake itself without a valid proof, for every way a client may present itself: with / without CLIENT_PLUGIN_AUTH
     # (a pre-5.5.7 client cannot be sent an auth switch), length-encoded proofs, a database in the handshake, announcing the
     # account's plugin / another one / none; requests for another proof are answered with a wrong one.  Refused, nothing served.
